@@ -579,6 +579,24 @@ def run(ctx):
                 ('in-B', lambda: OuterB.from_data({'inners': [{'x': 1}, {'x': 2}]}), lambda r: [z.x for z in r.inners], {'B'}),
                 ('alone-from_data', lambda: env.from_data({'x': 1}, Inner), lambda r: [r.x], set()),
                 ('alone-with-call-handler', lambda: env.from_data({'x': 1}, Inner, custom={int: c18.StampConv('call')}), lambda r: [r.x], {'call'})]
+        if rng.random() < 0.5:
+            # ONE handler object used at call level and as the class-level custom of an enclosing class, around a class with a handler
+            # of its own for the same type: at call level it beats the class's own, as an enclosing class's it loses to it
+            conv_h, conv_own = c18.StampConv('h'), c18.StampConv('own')
+
+            def h(ty, args, *, handlers):
+                return conv_h if ty is int else NotImplemented
+
+            def own(ty, args, *, handlers):
+                return conv_own if ty is int else NotImplemented
+            Inner2 = type(f"NI{next(_serial)}", (env.PaneBase,), {'__annotations__': {'x': int, 's': str}, 's': 'd', '__module__': __name__}, custom=own)
+            Outer2 = type(f"NA{next(_serial)}", (env.PaneBase,), {'__annotations__': {'inner': Inner2, 'y': int}, '__module__': __name__}, custom=h)
+            uses = [('own-class-alone', lambda: Inner2.from_data({'x': 1}), lambda r: [r.x], {'own'}),
+                    ('call-level-h', lambda: env.from_data({'x': 1}, Inner2, custom=h), lambda r: [r.x], {'h'}),
+                    ('inside-class-with-h:inner', lambda: Outer2.from_data({'inner': {'x': 1}, 'y': 2}), lambda r: [r.inner.x], {'own'}),
+                    ('inside-class-with-h:outer-field', lambda: Outer2.from_data({'inner': {'x': 1}, 'y': 2}), lambda r: [r.y], {'h'}),
+                    ('call-level-h-on-outer', lambda: env.from_data({'inner': {'x': 1}, 'y': 2}, Outer2, custom=h), lambda r: [r.inner.x, r.y], {'h'})]
+            ctx.count('shared_handler_object_sequences')
         seq = [rng.choice(uses) for _ in range(rng.randint(4, 9))]
         for step, (name, call, leaves, want) in enumerate(seq):
             o = observe(call)
